@@ -49,7 +49,9 @@ async fn run_cfg<TC: Tcfg>(case: &Case, st: &mut Stats) -> R {
             _ => None,
         };
         let mut published = vec![];
-        for l in &pool {
+        // very large pools (wide histories): a rotating window of labels per epoch keeps the case affordable
+        let window: Vec<Vec<u8>> = if pool.len() > 14 { (0..12).map(|k| pool[(i * 5 + k * 7) % pool.len()].clone()).collect() } else { pool.clone() };
+        for l in &window {
             let exp = expected_lookup(&sys.m, l, e);
             let real = sys.dir.lookup(AkdLabel(l.clone())).await;
             st.lookups += 1;
